@@ -78,3 +78,9 @@ Proof. exact weighted_select_never_panics. Qed.
 (* the repaired defect: without the check, reading bit 8 of a one-byte bitmap panics *)
 Theorem C09_bits_read_unchecked_refuted : exists bits i, bits_read bits i = Panic.
 Proof. exists [255], 8%nat. exact bits_read_short_bitmap_panics. Qed.
+
+(* memory bound: readBytes (the only allocation proportional to an attacker-chosen number) never allocates more than
+   the input that remains *)
+Theorem C09_read_bytes_alloc_bounded : forall r bs r', rinv r -> read_bytes_r r = Ok (bs, r') ->
+  (List.length bs <= List.length (data r) - idx r)%nat.
+Proof. exact read_bytes_alloc_bounded. Qed.
